@@ -25,8 +25,9 @@ class Rng:
     def chance(self, p): return self.next() / float(1 << 64) < p
 
 
-NAMES = ["a", "b", "c", "col_1", "k y", "select", "x1", "é", "CURRENT_DATE", "from", "A1", "user_id"]
-TNAMES = ["t", "u", "orders", "k y", "w", "tbl_2"]
+NAMES = ["a", "b", "c", "col_1", "k y", "select", "x1", "é", "CURRENT_DATE", "from", "A1", "user_id",
+         "x", "B", "X", "cross", "Sort", "using", "distribute", "cluster", "left", "on", "as", "limit", "union", "null", "True", "1a", "a-b", "a#b", "x'1'", "0x1F", "b'0'", "--", "/*", ";", "(", "a,b", "="]
+TNAMES = ["t", "u", "orders", "k y", "w", "tbl_2", "b", "x", "cross", "using", "Sort", "select", "1t", "t-1"]
 LITS = ["1", "0", "42", "2.5", "'s'", "''", "'a''b'", "NULL", "TRUE", "false", "x'1F'", "b'01'", "\"d\"", "'x y'", "'--'", "';'"]
 FUNCS = ["f", "concat", "COALESCE", "my fn", "trim", "IF", "substring"]
 AGGS = ["COUNT", "sum", "Max", "AVG", "min"]
@@ -141,7 +142,7 @@ class G:
         return self.N.ASTTableNameExpression(schema_name=self.opt(lambda: self.ch(["s", "db1", "k y"]), 0.3), table_name=self.ch(TNAMES))
 
     def alias(self, p=0.5):
-        return self.opt(lambda: self.N.ASTAlisaExpression(name=self.ch(["x", "al", "k y", "select", "T1", "é1"])), p)
+        return self.opt(lambda: self.N.ASTAlisaExpression(name=self.ch(["x", "al", "k y", "select", "T1", "é1", "b", "X", "cross", "USING", "sort", "Distribute", "cluster", "left", "on", "limit", "union", "where", "as", "null", "1", "a-b"])), p)
 
     def from_table(self, d, need_alias=False):
         N = self.N
